@@ -630,7 +630,20 @@ def r_varint_decoder(r, prog):
             r.ok('%s shifts the length code away (>> 2)' % nm)
         else:
             r.finding('varint-decoder-shift:%s' % nm, f.span, '%s does not shift the decoded value right by exactly 2' % nm)
-    r.floor(10)
+        # the only value-dependent rejection is the failed conversion into the requested type: every range error sits on the
+        # failure edge of T::try_from(value), and the result is that conversion (a value that fits is never refused, whatever width carried it)
+        errs = [c for c in f.calls() if c.name() in ('varint_range_error', 'varuint_range_error') and not f.blocks[c.bb].get('cleanup')]
+        cls = [g for g in prog.fns.values() if g.path.startswith(f.path + '::{closure')]
+        errs_in_closure = [c for g in cls for c in g.calls() if c.name() in ('varint_range_error', 'varuint_range_error')]
+        tf = [c for c in f.calls() if c.name() == 'try_from' and not f.blocks[c.bb].get('cleanup')]
+        me = [c for c in f.calls() if c.name() == 'map_err' and not f.blocks[c.bb].get('cleanup')]
+        ret = vexpr(f, {'cp': {'l': 0}}, depth=6)
+        if not errs and errs_in_closure and len(tf) == 1 and len(me) == 1 and re.match(r'^(phi\()?.*map_err\(try_from\(', ret) and 'Shr(' in vexpr(f, tf[0].args[0], depth=6):
+            r.ok('%s refuses a value only when T::try_from(value >> 2) fails' % nm)
+        else:
+            r.finding('varint-decoder-extra-rejection:%s' % nm, f.span,
+                      '%s builds a range error outside the failure of T::try_from(value) (%d direct site(s)): a value that fits the requested type can be refused depending on the width it was written with' % (nm, len(errs)))
+    r.floor(12)
 
 
 def r_fixed_width_siblings(r, prog):
@@ -656,8 +669,13 @@ def r_fixed_width_siblings(r, prog):
         e, d = enc[t], dec[t]
         conv = [c for c in e.calls() if re.search(r'::to_(le|be|ne)_bytes$', c.callee or '')]
         wr = [c for c in e.calls() if c.name() == 'write_bytes_exact']
-        if len(conv) == 1 and conv[0].callee.endswith('to_le_bytes') and t in conv[0].callee and wr and 'to_le_bytes' in vexpr(e, wr[0].args[-1]):
-            r.ok('%s encoder: to_le_bytes written whole' % t)
+        pure = vexpr(e, conv[0].args[0]) == 'arg1' if len(conv) == 1 else False
+        branches = [i for i, b in enumerate(e.blocks) if b['t']['k'] == 'switch' and not b.get('cleanup')]
+        if len(conv) == 1 and conv[0].callee.endswith('to_le_bytes') and t in conv[0].callee and wr and 'to_le_bytes' in vexpr(e, wr[0].args[-1]) and not (pure and not branches):
+            r.finding('fixed-width-encoder-alters-value:%s' % t, e.span, 'the %s encoder writes to_le_bytes(%s)%s: the bytes on the wire are no longer the bits of the value for every value' % (
+                t, vexpr(e, conv[0].args[0])[:80], ' and branches on the value' if branches else ''))
+        elif len(conv) == 1 and conv[0].callee.endswith('to_le_bytes') and t in conv[0].callee and wr and 'to_le_bytes' in vexpr(e, wr[0].args[-1]):
+            r.ok('%s encoder: to_le_bytes of the value itself, written whole, no value-dependent branch' % t)
         else:
             r.finding('fixed-width-encoder:%s' % t, e.span, '%s is not encoded as exactly its to_le_bytes() (found %s)' % (t, [c.callee for c in conv]))
         conv = [c for c in d.calls() if re.search(r'::from_(le|be|ne)_bytes$', c.callee or '')]
@@ -668,7 +686,11 @@ def r_fixed_width_siblings(r, prog):
                 n = int(rd[0].targs[-1].replace('_usize', '').replace('usize', '').strip() or 0)
             except ValueError:
                 n = None
-        if len(conv) == 1 and conv[0].callee.endswith('from_le_bytes') and t in conv[0].callee and rd and (n in (None, size[t])):
+        retv = vexpr(d, {'cp': {'l': 0}}, depth=8)
+        dbr = [i for i, b in enumerate(d.blocks) if b['t']['k'] == 'switch' and not b.get('cleanup') and b['t'].get('ty') not in ('isize',)]
+        if len(conv) == 1 and conv[0].callee.endswith('from_le_bytes') and t in conv[0].callee and rd and (n in (None, size[t])) and dbr:
+            r.finding('fixed-width-decoder-alters-value:%s' % t, d.span, 'the %s decoder branches on the decoded value: it no longer returns from_le_bytes of the bytes read for every value' % t)
+        elif len(conv) == 1 and conv[0].callee.endswith('from_le_bytes') and t in conv[0].callee and rd and (n in (None, size[t])):
             r.ok('%s decoder: %s bytes through from_le_bytes' % (t, size[t]))
         else:
             r.finding('fixed-width-decoder:%s' % t, d.span, '%s is not decoded from exactly %d bytes with from_le_bytes (found %s, N=%s)' % (t, size[t], [c.callee for c in conv], n))
